@@ -56,7 +56,7 @@ def safe_consts(rng, fs):
 
 
 def make_clean(rng, fs, gctx):
-    """restrict a generated file set to constructs outside every known class: integer constants,
+    """restrict a generated file set to constructs outside every known class:
     hierarchies of any depth, typed object arrays,
     parameter names p0.."""
     idx = iface_index(fs)
@@ -65,15 +65,11 @@ def make_clean(rng, fs, gctx):
         return bool(s) and any(ft in gctx.structs and gctx.structs[ft]["objs"] > 0 for ft, c, fn in s["fields"])
     for f in fs["files"]:
         for i, d in enumerate(f["decls"]):
-            if d[0] == "const" and d[1].startswith("float"):
-                f["decls"][i] = ("const", "uint32", d[2], "5")
             if d[0] != "iface":
                 continue
             base = d[2]
             ms = []
             for m in d[3]:
-                if m[0] == "const" and m[1].startswith("float"):
-                    m = ("const", "uint32", m[2], "5")
                 if m[0] == "method":
                     ps = []
                     for (dr, t, sh, pn) in m[2]:
@@ -180,8 +176,6 @@ def file_facts(fs, gctx, path, deep=True):
 
 # (class, languages, predicate on facts (+ untyped flag), pattern on the diagnostic line)
 CLASSES = [
-    ("K_float_macro", ("c", "cpp"), lambda F, u: F["float_const"], r"FLOAT|DOUBLE|in-class initializer for static data member of type 'const (float|double)'|constexpr"),
-    ("K_rust_float_int_literal", ("rust",), lambda F, u: F["float_int_literal"], r"mismatched types|expected `f(32|64)`, found integer|E0308"),
     ("K_cpp_untyped_objarr", ("cpp",), lambda F, u: F["untyped_objarr"] or (u and F["objarr"]), r"has no member named '(get|consume)'|no member named '(get|consume)'|ProxyBase|Object"),
 ]
 
